@@ -219,10 +219,53 @@ def check_dataset(case, ctx):
     ctx.show(gen.describe(case["fg"], case["dg"], case["specs"], case["dims"], op=name))
 
 
+@st.composite
+def fit_case(draw):
+    fg = draw(gen.freq_grid(6, 14))
+    dg = draw(gen.dir_grid(3, 12, spacing=("whole",)))
+    n = draw(st.integers(2, 4))
+    dims = [[draw(st.sampled_from(["time", "site"])), n]]
+    # records with a peak next to records without an interior peak (monotone) or without energy
+    specs = [draw(gen.spectrum(kinds=("multinoisy", "bumps", "monotone", "monotone", "zero"))) for _ in range(n)]
+    return dict(fg=fg, dg=dg, dims=dims, specs=specs, which=draw(st.sampled_from(["fit_jonswap", "fit_gaussian"])), dtype="float64")
+
+
+def check_fits(case, ctx):
+    """fit_jonswap / fit_gaussian of a dataset against the fit of each spectrum on its own: the same records are
+    fitted (NaN pattern), and where both are, the parameters agree or the two fits are equally good."""
+    x = gen.build_dataarray(case["fg"], case["dg"], case["specs"], case["dims"], dtype=case["dtype"])
+    dim, n = case["dims"][0]
+    with ctx.lib("%s (batched)" % case["which"]):
+        full = getattr(x.spec, case["which"])().load()
+    ef = x.spec.oned()
+    for i in range(n):
+        xs = x.isel({dim: [i]})
+        with ctx.lib("%s (record %d on its own)" % (case["which"], i)):
+            one = getattr(xs.spec, case["which"])().load()
+        for k in [v for v in full.data_vars if v != "efth"]:
+            a = float(np.asarray(full[k].isel({dim: i}).values).ravel()[0])
+            b = float(np.asarray(one[k].values).ravel()[0])
+            if np.isnan(a) != np.isnan(b):
+                raise Violation("cross-talk", "%s: %s of record %d is %r within the dataset but %r for the record on its own (kinds %s)" % (case["which"], k, i, a, b, [s_["kind"] for s_ in case["specs"]]))
+            if not np.isnan(a) and abs(a - b) > 1e-3 * max(abs(a), abs(b)):
+                sa = float(((full["efth"].isel({dim: i}) - ef.isel({dim: i})) ** 2).sum())
+                sb = float(((one["efth"].isel({dim: 0}) - ef.isel({dim: i})) ** 2).sum())
+                if abs(sa - sb) > 1e-4 * max(sa, sb) + 1e-12 * float((ef.isel({dim: i}) ** 2).sum()):
+                    raise Violation("cross-talk", "%s: %s of record %d is %r within the dataset, %r on its own, and the two fits are not equally good (misfit %r vs %r)" % (case["which"], k, i, a, b, sa, sb))
+                ctx.label("fit-equally-good-optimum(accepted)")
+        ctx.evals += 1
+    ctx.evals -= 1
+    kinds = {s_["kind"] for s_ in case["specs"]}
+    ctx.nt(len(kinds) >= 2)
+    ctx.label("fit=" + case["which"], *["kind=" + k for k in sorted(kinds)])
+    ctx.show(dict(which=case["which"], kinds=[s_["kind"] for s_ in case["specs"]], grid=[len(case["fg"]["f"]), case["dg"]["n"]]))
+
+
 def facets():
     allops = [n for n in ops.CATALOGUE if ops.CATALOGUE[n][2] != "timestat"]  # hmax depends on the whole time axis by definition
     return [
         Facet("per_position", indep_case(allops), _each_op(check_per_position), quick=240, thorough=6000, qshards=8),
         Facet("perturb", indep_case(allops), _each_op(check_perturb), quick=240, thorough=6000, qshards=6),
         Facet("dataset_accessor", indep_case(DS_OPS), _each_op(check_dataset), quick=100, thorough=2000, qshards=2),
+        Facet("fits", fit_case(), check_fits, quick=60, thorough=1500, qshards=2),
     ]
